@@ -128,6 +128,17 @@ func descD0(v ssa.Value, d int, seen map[ssa.Value]bool) string {
 	rec := func(x ssa.Value) string { return descD(x, d-1, seen) }
 	switch x := v.(type) {
 	case *ssa.Parameter:
+		if isNewHelper(x.Parent()) && seen[x] {
+			descDirty = true
+		}
+		if isNewHelper(x.Parent()) && !seen[x] {
+			seen[x] = true
+			s, ok := helperParamDesc(x, rec)
+			delete(seen, x)
+			if ok {
+				return s
+			}
+		}
 		return fmt.Sprintf("$%d", paramIndex(x))
 	case *ssa.FreeVar:
 		return "free:" + x.Name()
@@ -187,6 +198,14 @@ func descD0(v ssa.Value, d int, seen map[ssa.Value]bool) string {
 	case *ssa.BinOp:
 		return "(" + rec(x.X) + " " + x.Op.String() + " " + rec(x.Y) + ")"
 	case *ssa.Call:
+		if h := newHelperCallee(x); h != nil && h.Signature.Results().Len() == 1 && !seen[x] {
+			seen[x] = true
+			s, ok := helperResultDesc(h, 0, rec)
+			delete(seen, x)
+			if ok {
+				return s
+			}
+		}
 		var args []string
 		for _, a := range x.Call.Args {
 			args = append(args, rec(a))
@@ -196,6 +215,16 @@ func descD0(v ssa.Value, d int, seen map[ssa.Value]bool) string {
 		}
 		return calleeName(&x.Call) + "(" + strings.Join(args, ", ") + ")"
 	case *ssa.Extract:
+		if c, isCall := x.Tuple.(*ssa.Call); isCall && !seen[x] {
+			if h := newHelperCallee(c); h != nil {
+				seen[x] = true
+				s, ok := helperResultDesc(h, x.Index, rec)
+				delete(seen, x)
+				if ok {
+					return s
+				}
+			}
+		}
 		return rec(x.Tuple) + "#" + fmt.Sprint(x.Index)
 	case *ssa.ChangeType:
 		return rec(x.X)
@@ -310,6 +339,14 @@ func litOf(cond ssa.Value, outcome bool) Lit {
 				pos = !pos
 			}
 			return Lit{"(" + a + " == " + b + ")", pos}
+		}
+		// comparisons of a non-negative quantity (len, cap, unsigned) against
+		// 0 or 1 are emptiness tests: x > 0, x >= 1, 0 < x, 1 <= x are
+		// !(x == 0); x < 1, x <= 0, 1 > x, 0 >= x are (x == 0)
+		if l, ok := emptinessLit(x, a, b, outcome); ok {
+			return l
+		}
+		switch x.Op {
 		case token.LSS:
 			return Lit{"(" + a + " < " + b + ")", outcome}
 		case token.GTR:
@@ -321,6 +358,59 @@ func litOf(cond ssa.Value, outcome bool) Lit {
 		}
 	}
 	return Lit{desc(cond), outcome}
+}
+
+// nonNegative: the value is a len/cap result or has an unsigned type.
+func nonNegative(v ssa.Value) bool {
+	if b, ok := v.Type().Underlying().(*types.Basic); ok && b.Info()&types.IsUnsigned != 0 {
+		return true
+	}
+	if c, ok := v.(*ssa.Call); ok {
+		if bi, ok := c.Call.Value.(*ssa.Builtin); ok && (bi.Name() == "len" || bi.Name() == "cap") {
+			return true
+		}
+	}
+	return false
+}
+
+func smallConst(v ssa.Value) (int64, bool) {
+	c, ok := v.(*ssa.Const)
+	if !ok || c.Value == nil || c.Value.Kind() != constant.Int {
+		return 0, false
+	}
+	n, exact := constant.Int64Val(c.Value)
+	return n, exact
+}
+
+func emptinessLit(x *ssa.BinOp, a, b string, outcome bool) (Lit, bool) {
+	// normalise to "v OP k" with the constant on the right
+	v, k, op := x.X, x.Y, x.Op
+	vd := a
+	if _, ok := smallConst(x.X); ok {
+		v, k, vd = x.Y, x.X, b
+		switch op {
+		case token.LSS:
+			op = token.GTR
+		case token.GTR:
+			op = token.LSS
+		case token.LEQ:
+			op = token.GEQ
+		case token.GEQ:
+			op = token.LEQ
+		}
+	}
+	n, ok := smallConst(k)
+	if !ok || !nonNegative(v) {
+		return Lit{}, false
+	}
+	atom := "(" + vd + " == 0)"
+	switch {
+	case op == token.GTR && n == 0, op == token.GEQ && n == 1:
+		return Lit{atom, !outcome}, true
+	case op == token.LSS && n == 1, op == token.LEQ && n == 0:
+		return Lit{atom, outcome}, true
+	}
+	return Lit{}, false
 }
 
 // Point is a program point: instruction I of block B.
@@ -382,33 +472,65 @@ func (w *Witness) String(p *Prog) string {
 	return s
 }
 
+type wframe struct {
+	call   *ssa.Call
+	parent *wframe
+	depth  int
+	tail   bool // the helper's returns are returns of the walked function
+}
+
 type wstate struct {
 	b    *ssa.BasicBlock
 	pred int
-	env  string // polarities recorded for the Stable atoms on this path
+	from int
+	env  string // polarities recorded for the atoms tested on this path
+	fr   *wframe
 }
 
 // Run returns a witness for the first hit, or nil when no hit is reachable.
 func (w *Walker) Run(start Point) *Witness {
 	type item struct {
 		st     wstate
-		from   int // instruction index to start at
 		parent int
 		lit    *Lit
 	}
 	var items []item
 	seen := map[wstate]bool{}
-	push := func(b *ssa.BasicBlock, pred, from, parent int, lit *Lit, env string) {
-		st := wstate{b, pred, env}
-		if from == 0 {
-			if seen[st] {
-				return
-			}
-			seen[st] = true
+	push := func(b *ssa.BasicBlock, pred, from, parent int, lit *Lit, env string, fr *wframe) {
+		st := wstate{b, pred, from, env, fr}
+		if seen[st] {
+			return
 		}
-		items = append(items, item{st, from, parent, lit})
+		seen[st] = true
+		items = append(items, item{st, parent, lit})
 	}
-	push(start.B, -1, start.I, -1, nil, "")
+	type frameKey struct {
+		call   *ssa.Call
+		parent *wframe
+	}
+	frames := map[frameKey]*wframe{}
+	enter := func(call *ssa.Call, parent *wframe) *wframe {
+		k := frameKey{call, parent}
+		if f := frames[k]; f != nil {
+			return f
+		}
+		d := 1
+		if parent != nil {
+			d = parent.depth + 1
+		}
+		f := &wframe{call, parent, d, (parent == nil || parent.tail) && helperIdx[call.Call.StaticCallee()].tail}
+		frames[k] = f
+		return f
+	}
+	inFrames := func(fr *wframe, h *ssa.Function) bool {
+		for ; fr != nil; fr = fr.parent {
+			if fr.call.Call.StaticCallee() == h {
+				return true
+			}
+		}
+		return false
+	}
+	push(start.B, -1, start.I, -1, nil, "", nil)
 	mkWitness := func(idx int, hit ssa.Instruction) *Witness {
 		wt := &Witness{Hit: hit}
 		for i := idx; i >= 0; i = items[i].parent {
@@ -422,11 +544,31 @@ func (w *Walker) Run(start Point) *Witness {
 	for qi := 0; qi < len(items); qi++ {
 		it := items[qi]
 		b := it.st.b
-		stopped := false
-		for i := it.from; i < len(b.Instrs); i++ {
+		fr := it.st.fr
+		stopped, clobbered := false, false
+		for i := it.st.from; i < len(b.Instrs); i++ {
 			ins := b.Instrs[i]
 			if _, ok := ins.(*ssa.Phi); ok {
 				continue
+			}
+			// the return of an inlined new helper continues after the call
+			if _, isRet := ins.(*ssa.Return); isRet && (fr != nil || isNewHelper(b.Parent())) {
+				if fr != nil && fr.tail {
+					// tail-called helper: its return is the function's return
+					if w.Visit != nil && w.Visit(ins) == wHit {
+						return mkWitness(qi, ins)
+					}
+				} else if fr != nil {
+					cont := after(fr.call)
+					push(cont.B, -1, cont.I, qi, nil, stableOnly(it.st.env), fr.parent)
+				} else {
+					for _, site := range helperIdx[b.Parent()].sites {
+						cont := after(site)
+						push(cont.B, -1, cont.I, qi, nil, stableOnly(it.st.env), nil)
+					}
+				}
+				stopped = true
+				break
 			}
 			if w.Visit != nil {
 				switch w.Visit(ins) {
@@ -439,9 +581,21 @@ func (w *Walker) Run(start Point) *Witness {
 			if stopped {
 				break
 			}
+			if h := newHelperCallee(ins); h != nil && (fr == nil || fr.depth < 4) && !inFrames(fr, h) {
+				// facts do not cross the frame boundary: the same helper may run twice with different arguments
+				push(h.Blocks[0], -1, 0, qi, nil, stableOnly(it.st.env), enter(ins.(*ssa.Call), fr))
+				stopped = true // the walk continues inside the helper
+				break
+			}
+			if clobbers(ins) {
+				clobbered = true
+			}
 		}
 		if stopped || len(b.Instrs) == 0 {
 			continue
+		}
+		if clobbered {
+			it.st.env = stableOnly(it.st.env)
 		}
 		predIdx := func(s *ssa.BasicBlock) int {
 			for k, p := range s.Preds {
@@ -455,11 +609,11 @@ func (w *Walker) Run(start Point) *Witness {
 		if ifi, ok := last.(*ssa.If); ok {
 			cond := ifi.Cond
 			// resolve a phi defined in this block against the incoming edge
-			if ph, ok := cond.(*ssa.Phi); ok && ph.Block() == b && it.st.pred >= 0 && it.st.pred < len(ph.Edges) && it.from == 0 {
+			if ph, ok := cond.(*ssa.Phi); ok && ph.Block() == b && it.st.pred >= 0 && it.st.pred < len(ph.Edges) && it.st.from == 0 {
 				cond = ph.Edges[it.st.pred]
 			}
 			if un, ok := cond.(*ssa.UnOp); ok && un.Op == token.NOT {
-				if ph, ok := un.X.(*ssa.Phi); ok && ph.Block() == b && it.st.pred >= 0 && it.st.pred < len(ph.Edges) && it.from == 0 {
+				if ph, ok := un.X.(*ssa.Phi); ok && ph.Block() == b && it.st.pred >= 0 && it.st.pred < len(ph.Edges) && it.st.from == 0 {
 					if c, ok := ph.Edges[it.st.pred].(*ssa.Const); ok && c.Value != nil && c.Value.Kind() == constant.Bool {
 						cond = ssa.NewConst(constant.MakeBool(!constant.BoolVal(c.Value)), c.Type())
 					}
@@ -471,7 +625,7 @@ func (w *Walker) Run(start Point) *Witness {
 					if constant.BoolVal(c.Value) != outcome {
 						continue // infeasible
 					}
-					push(s, predIdx(s), 0, qi, nil, it.st.env)
+					push(s, predIdx(s), 0, qi, nil, it.st.env, fr)
 					continue
 				}
 				l := litOf(cond, outcome)
@@ -479,28 +633,116 @@ func (w *Walker) Run(start Point) *Witness {
 					continue
 				}
 				env := it.st.env
-				if w.isStable(l.Atom) {
-					yes, no := "\x00"+l.Atom+"=T", "\x00"+l.Atom+"=F"
+				if s.Dominates(b) {
+					env = stableOnly(env) // loop back edge: values are redefined
+				}
+				if st := w.isStable(l.Atom); st || pureCond(cond, 0) {
+					tag := "\x00"
+					if st {
+						tag = "\x01"
+					}
+					yes, no := tag+l.Atom+"=T\x02", tag+l.Atom+"=F\x02"
 					mine, other := yes, no
 					if !l.Pos {
 						mine, other = no, yes
 					}
 					if strings.Contains(env, other) {
-						continue // contradicts an earlier test of the same stable atom
+						continue // contradicts an earlier test of the same atom
 					}
 					if !strings.Contains(env, mine) {
 						env += mine
 					}
 				}
-				push(s, predIdx(s), 0, qi, &l, env)
+				push(s, predIdx(s), 0, qi, &l, env, fr)
 			}
 			continue
 		}
 		for _, s := range b.Succs {
-			push(s, predIdx(s), 0, qi, nil, it.st.env)
+			env := it.st.env
+			if s.Dominates(b) {
+				env = stableOnly(env)
+			}
+			push(s, predIdx(s), 0, qi, nil, env, fr)
 		}
 	}
 	return nil
+}
+
+// clobbers: the instruction may change memory (or consumes an event), so a
+// condition over loaded values tested before it may evaluate differently
+// after it.
+func clobbers(ins ssa.Instruction) bool {
+	switch x := ins.(type) {
+	case *ssa.Store, *ssa.MapUpdate, *ssa.Send, *ssa.Select, *ssa.Go, *ssa.Defer, *ssa.RunDefers, *ssa.Next, *ssa.Panic:
+		return true
+	case *ssa.Call:
+		if bi, ok := x.Call.Value.(*ssa.Builtin); ok {
+			switch bi.Name() {
+			case "len", "cap", "min", "max", "real", "imag", "complex":
+				return false
+			}
+		}
+		return true
+	case *ssa.UnOp:
+		return x.Op == token.ARROW
+	}
+	return false
+}
+
+// pureCond: the condition is built only from parameters, constants, globals,
+// field/index selections, loads, arithmetic and len/cap - two conditions with
+// the same description then have the same value unless a clobbering
+// instruction lies between them. Phis, call results and locals are excluded
+// (equal descriptions do not imply equal values for them).
+func pureCond(v ssa.Value, depth int) bool {
+	if depth > 12 {
+		return false
+	}
+	switch x := v.(type) {
+	case *ssa.Parameter, *ssa.Const, *ssa.Global, *ssa.FreeVar:
+		return true
+	case *ssa.FieldAddr:
+		return pureCond(x.X, depth+1)
+	case *ssa.Field:
+		return pureCond(x.X, depth+1)
+	case *ssa.IndexAddr: // non-constant indices are all rendered "_"
+		return pureCond(x.X, depth+1) && isConst(x.Index)
+	case *ssa.Index:
+		return pureCond(x.X, depth+1) && isConst(x.Index)
+	case *ssa.Lookup:
+		return !x.CommaOk && pureCond(x.X, depth+1) && pureCond(x.Index, depth+1)
+	case *ssa.UnOp:
+		return x.Op != token.ARROW && pureCond(x.X, depth+1)
+	case *ssa.BinOp:
+		return pureCond(x.X, depth+1) && pureCond(x.Y, depth+1)
+	case *ssa.Convert:
+		return pureCond(x.X, depth+1)
+	case *ssa.ChangeType:
+		return pureCond(x.X, depth+1)
+	case *ssa.ChangeInterface:
+		return pureCond(x.X, depth+1)
+	case *ssa.MakeInterface:
+		return pureCond(x.X, depth+1)
+	case *ssa.Call:
+		if bi, ok := x.Call.Value.(*ssa.Builtin); ok && (bi.Name() == "len" || bi.Name() == "cap") && len(x.Call.Args) == 1 {
+			return pureCond(x.Call.Args[0], depth+1)
+		}
+	}
+	return false
+}
+
+// stableOnly keeps the entries of declared-stable atoms (tag \x01).
+func stableOnly(env string) string {
+	if !strings.Contains(env, "\x00") {
+		return env
+	}
+	var sb strings.Builder
+	for _, part := range strings.SplitAfter(env, "\x02") {
+		if strings.HasPrefix(part, "\x01") {
+			sb.WriteString(part)
+		}
+	}
+	return sb.String()
 }
 
 func (w *Walker) isStable(atom string) bool {
@@ -605,6 +847,13 @@ func reachAvoiding(from Point, isTarget, barrier func(ssa.Instruction) bool) *Wi
 // ---- instruction queries ----
 
 func eachInstr(fn *ssa.Function, f func(ssa.Instruction)) {
+	if len(helperIdx) > 0 {
+		if isNewHelper(fn) {
+			return // analysed as part of its callers
+		}
+		eachInstrDeep(fn, f, map[*ssa.Function]bool{}, 0, true)
+		return
+	}
 	for _, b := range fn.Blocks {
 		for _, i := range b.Instrs {
 			f(i)
